@@ -17,8 +17,10 @@ from mc import explore, report
 from mc.env import ref_ash
 from mc.env.stackworld import StackWorld
 
-CMD_TIMEOUT = 10.0
-LINK_BUDGET = 5 * 3.2
+from mc import tunables
+
+CMD_TIMEOUT = tunables.ezsp_cmd_timeout()          # "the command timeout"
+LINK_BUDGET = tunables.ash_attempts() * 3.2        # "the link timeout": configured attempts x the protocol's maximum ACK timeout
 EPS = 1e-9
 KINDS = ["error51", "error80", "rstack00", "rstack02", "rstack06", "silent", "port_error", "eof", "close"]
 
@@ -393,7 +395,7 @@ def main(tier: str) -> int:
         "samples": st.samples[:3],
     }
     rep.assumptions = [
-        "command timeout 10 s and link budget 5 x 3.2 s hard-coded in the oracle; the keep-alive is issued 10 s after the workload starts",
+        "command timeout and attempt count are read from bellows (tunables the property names but does not fix), the 3.2 s ACK-timeout maximum is the ASH specification's; the keep-alive is issued 10 s after the workload starts",
         "for a silent NCP the controller-reset request must arrive by injection + 10 s (keep-alive) + command timeout + link budget",
         "'prior' workloads: an ERROR frame is delivered before the application callback is registered (ignored by design, link left failed), then the callback is registered and the failures are injected",
         "failures are injected after a fault-free bring-up, once an application callback is registered; full stack with use_thread=False on one hand-stepped loop",
